@@ -47,7 +47,11 @@ func (g *Gen) header(cexArrays []string) string {
 		fmt.Fprintf(&b, "(declare-const %s %s)\n", n, g.epochs[n])
 	}
 	for _, d := range g.m.funcsDecl {
-		b.WriteString(d + "\n")
+		if cexArrays != nil {
+			b.WriteString(d.cex + "\n")
+		} else {
+			b.WriteString(d.proof + "\n")
+		}
 	}
 	if cexArrays == nil {
 		b.WriteString(preludeAxioms(nil))
@@ -103,7 +107,7 @@ func runSolver(ctx context.Context, sp solverSpec, file string, secs, seed int) 
 	cmd.Stderr = &out
 	_ = cmd.Run()
 	el := time.Since(t0).Seconds()
-	s := out.String()
+	s := dropWarnings(out.String())
 	first := strings.TrimSpace(s)
 	if i := strings.IndexByte(first, '\n'); i >= 0 {
 		first = first[:i]
